@@ -193,3 +193,167 @@ Qed.
 
 Example simplified_example : simplified_operand GQring (osum [tm 1 0 0 [(0%nat, PX)]; tm 0 3 1 [(1%nat, PY)]]).
 Proof. repeat constructor; cbn; intros H; repeat (destruct H as [H|H]; try discriminate H); exact H. Qed.
+
+(* ==== the arithmetic methods TRANSLATED from the source agree with the model ===========================================
+   Gen/PauliOpsGen.v is regenerated from operators/_pauli_operators.py on every run by tr/tr_pauli_ops.py (statement by
+   statement; the meaning of the Python building blocks is Pauli/PauliOpsTrSupport.v).  [P : pyenv] is an arbitrary
+   environment of a run: a commutative ring of numbers, the closeness test np.isclose / np.allclose, an arbitrary
+   iteration order for dicts / sets / frozensets ([order_ok P]: it enumerates the elements) and a recursion limit.
+   [emb_term] / [emb_sum] / [emb_operand] embed the model's terms, sums and operands into the generated records (qubit q
+   as the Python int q, a letter as its one-character string); [is_zero P c] is np.isclose(c, 0).  The guard is the
+   model's representation invariant ([ops_sorted]; implied by [operand_ok n]).  ([res_of]: the model writes "two plain
+   numbers: not the library's business" as None, the generated dispatcher as the exception NotTranslated.) *)
+Require Import Coq.Sorting.Sorted.
+Require Import OQ.Pauli.Matrix OQ.Pauli.PauliOpsTrSupport OQ.Gen.PauliOpsGen OQ.Pauli.PauliOpsGenProofs.
+
+(* PauliTerm.__init__ on a dictionary (validation passes, "I" entries are dropped), PauliTerm("I0", c), identity(), copy *)
+Theorem generated_constructor_is_model : forall P : pyenv, order_ok P ->
+  (forall (l : ops) (c : py_ring P), ops_sorted l ->
+     PauliTerm_init_dict_num_gen P (emb_ops l) c = Ok (emb_term P (mk_term c l))) /\
+  (forall c : py_ring P,
+     PauliTerm_init_dict_num_gen P (py_dict_of_items [(0%Z, "I"%string)]) c = Ok (emb_term P (const c))) /\
+  PauliTerm_identity_gen P = Ok (emb_term P identity) /\
+  (forall t : term (py_ring P), ops_sorted (tops t) -> PauliTerm_copy_none_gen P (emb_term P t) tt = Ok (emb_term P t)) /\
+  (forall (t : term (py_ring P)) (c : py_ring P), ops_sorted (tops t) ->
+     PauliTerm_copy_num_gen P (emb_term P t) c = Ok (emb_term P (mk_term c (tops t)))).
+Proof.
+  intros P HO. repeat split;
+    [exact (init_gen P HO)|exact (init_I0_gen P HO)|exact (identity_gen P HO)|exact (copy_none_gen P HO)|exact (copy_num_gen P HO)].
+Qed.
+Print Assumptions generated_constructor_is_model.
+
+(* qubits, operations, is_constant, n_qubits, __getitem__ of a term *)
+Theorem generated_term_views_are_model : forall P : pyenv, order_ok P -> forall t : term (py_ring P), ops_sorted (tops t) ->
+  PauliTerm_qubits_gen P (emb_term P t) = Ok (map Z.of_nat (keys (tops t))) /\
+  PauliTerm_operations_gen P (emb_term P t) = Ok (emb_ops (tops t)) /\
+  PauliTerm_is_constant_gen P (emb_term P t) = Ok (match tops t with [] => true | _ => false end) /\
+  PauliTerm_n_qubits_gen P (emb_term P t) = Ok (Z.of_nat (term_width t)) /\
+  (forall q : nat, PauliTerm_getitem_int_gen P (emb_term P t) (Z.of_nat q) = Ok (letter_or_I (lookup q (tops t)))).
+Proof.
+  intros P HO t Hs. repeat split;
+    [exact (qubits_gen P HO t Hs)|exact (operations_gen P HO t Hs)|exact (is_constant_gen P t)|exact (n_qubits_gen P HO t Hs)
+    |exact (getitem_gen P t)].
+Qed.
+Print Assumptions generated_term_views_are_model.
+
+(* is_constant, qubits, n_qubits of a sum (the width model of Pauli/Matrix.v used by C09) *)
+Theorem generated_sum_views_are_model : forall P : pyenv, order_ok P -> forall s : psum (py_ring P), sorted_sum P s ->
+  PauliSum_is_constant_gen P (emb_sum P s) = Ok (forallb (const_term P) s) /\
+  PauliSum_n_qubits_gen P (emb_sum P s) = Ok (Z.of_nat (sum_width s)) /\
+  exists S : pyset, PauliSum_qubits_gen P (emb_sum P s) = Ok S /\ StronglySorted Z.lt S /\
+                    (forall y : Z, In y S <-> sum_has_qubit P s y).
+Proof.
+  intros P HO s Hs. repeat split; [exact (sum_is_constant_gen P s)|exact (sum_n_qubits_gen P HO s Hs)|exact (sum_qubits_gen P HO s Hs)].
+Qed.
+Print Assumptions generated_sum_views_are_model.
+
+(* PauliTerm._multiply_by_operator, reading the generated tables *)
+Theorem generated_multiply_by_operator_is_model : forall P : pyenv, order_ok P ->
+  forall (t : term (py_ring P)) (b : letter) (q : nat), ops_sorted (tops t) ->
+  PauliTerm_multiply_by_operator_str_int_gen P (emb_term P t) (letter_str b) (Z.of_nat q) = Ok (emb_term P (mul_by_op t b q)).
+Proof. exact multiply_by_operator_gen. Qed.
+Print Assumptions generated_multiply_by_operator_is_model.
+
+(* PauliTerm.__mul__(PauliTerm): whatever the order in which `for op, index in other` produces the qubits of other *)
+Theorem generated_term_product_is_model : forall P : pyenv, order_ok P ->
+  forall t1 t2 : term (py_ring P), ops_sorted (tops t1) -> ops_sorted (tops t2) ->
+  PauliTerm_mul_term_gen P (emb_term P t1) (emb_term P t2) = Ok (emb_term P (term_mul t1 t2)).
+Proof. exact mul_term_gen. Qed.
+Print Assumptions generated_term_product_is_model.
+
+(* PauliTerm * number and number * PauliTerm *)
+Theorem generated_term_scaling_is_model : forall P : pyenv, order_ok P ->
+  forall (t : term (py_ring P)) (c : py_ring P), ops_sorted (tops t) ->
+  PauliTerm_mul_num_gen P (emb_term P t) c = Ok (emb_term P (term_scale t c)) /\
+  PauliTerm_rmul_num_gen P (emb_term P t) c = Ok (emb_term P (term_scale t c)).
+Proof. intros P HO t c Hs. split; [exact (mul_num_gen P HO t c Hs)|exact (rmul_num_gen P HO t c Hs)]. Qed.
+Print Assumptions generated_term_scaling_is_model.
+
+(* PauliSum.simplify: the OrderedDict of like terms, the two loops, the zero tests *)
+Theorem generated_simplify_is_model : forall P : pyenv, order_ok P -> forall s : psum (py_ring P), sorted_sum P s ->
+  PauliSum_simplify_gen P (emb_sum P s) = Ok (emb_sum P (simplify (is_zero P) s)).
+Proof. exact simplify_gen. Qed.
+Print Assumptions generated_simplify_is_model.
+
+(* + - * on every pair of operand kinds, through the dispatch of Python's binary operator protocol
+   (__add__ / __radd__ / __sub__ / __rsub__ / __mul__ / __rmul__ of both classes) *)
+Theorem generated_add_is_model : forall P : pyenv, order_ok P ->
+  forall a b : operand (py_ring P), operand_sorted P a -> operand_sorted P b ->
+  binop_add_gen P (emb_operand P a) (emb_operand P b) = res_of P (py_add (is_zero P) a b).
+Proof. exact binop_add_agrees. Qed.
+Print Assumptions generated_add_is_model.
+
+Theorem generated_sub_is_model : forall P : pyenv, order_ok P ->
+  forall a b : operand (py_ring P), operand_sorted P a -> operand_sorted P b ->
+  binop_sub_gen P (emb_operand P a) (emb_operand P b) = res_of P (py_sub (is_zero P) a b).
+Proof. exact binop_sub_agrees. Qed.
+Print Assumptions generated_sub_is_model.
+
+Theorem generated_mul_is_model : forall P : pyenv, order_ok P ->
+  forall a b : operand (py_ring P), operand_sorted P a -> operand_sorted P b ->
+  binop_mul_gen P (emb_operand P a) (emb_operand P b) = res_of P (py_mul (is_zero P) a b).
+Proof. exact binop_mul_agrees. Qed.
+Print Assumptions generated_mul_is_model.
+
+(* ** : __pow__ and the recursion of _efficient_exponentiation, for every exponent the recursion limit allows
+   ([pow_fuel k] frames; at most twice the number of binary digits of k) *)
+Theorem generated_pow_is_model : forall P : pyenv, order_ok P ->
+  forall (a : operand (py_ring P)) (k : Z), operand_sorted P a -> (0 <= k)%Z -> (pow_fuel k <= rec_limit P)%nat ->
+  binop_pow_gen P (emb_operand P a) k = res_of P (py_pow (is_zero P) a k).
+Proof. exact binop_pow_agrees. Qed.
+Print Assumptions generated_pow_is_model.
+
+Theorem generated_pow_negative_raises : forall (P : pyenv) (a : operand (py_ring P)) (k : Z),
+  (k < 0)%Z -> (forall c : py_ring P, a <> ON c) ->
+  binop_pow_gen P (emb_operand P a) k = Raise ValueError /\ py_pow (is_zero P) a k = None.
+Proof.
+  intros P a k Hk Hn. split; [exact (pow_negative_gen P a k Hk Hn)|].
+  unfold py_pow. destruct (Z.ltb_spec k 0) as [_|H]; [reflexivity|exfalso; apply (Z.lt_irrefl k); apply (Z.lt_le_trans _ 0); assumption].
+Qed.
+Print Assumptions generated_pow_negative_raises.
+
+Theorem generated_pow_recursion_depth : forall p : positive, (pow_depth p <= 2 * Pos.size_nat p)%nat.
+Proof. exact pow_depth_bound. Qed.
+Print Assumptions generated_pow_recursion_depth.
+
+(* PauliTerm.__eq__ against a term and against a number *)
+Theorem generated_term_eq_is_model : forall P : pyenv, order_ok P ->
+  forall t1 t2 : term (py_ring P), ops_sorted (tops t1) -> ops_sorted (tops t2) ->
+  PauliTerm_eq_term_gen P (emb_term P t1) (emb_term P t2) = Ok (term_eqb (is_zero P) (np_close P) t1 t2) /\
+  forall c : py_ring P, PauliTerm_eq_num_gen P (emb_term P t1) c = Ok (term_eqb (is_zero P) (np_close P) t1 (const c)).
+Proof. intros P HO t1 t2 H1 H2. split; [exact (eq_term_gen P HO t1 t2 H1 H2)|intro c; exact (eq_num_gen P HO t1 c H1)]. Qed.
+Print Assumptions generated_term_eq_is_model.
+
+(* the guard is the representation invariant of the property theorems above *)
+Theorem generated_guard_is_operand_ok : forall (P : pyenv) (n : nat) (a : operand (py_ring P)),
+  operand_ok n a -> operand_sorted P a.
+Proof. exact operand_ok_sorted. Qed.
+Print Assumptions generated_guard_is_operand_ok.
+
+(* an executable environment: Gaussian rationals, exact closeness test, every unordered collection iterated in REVERSE
+   order of its representation, 64 frames *)
+Definition gq_env : pyenv := mk_pyenv GQring gq_eqb (fun _ A l => rev l) 64.
+Example gq_env_order_ok : order_ok gq_env.
+Proof. intros site A l. apply Permutation_sym. apply Permutation_rev. Qed.
+
+(* the generated __mul__ run on (2 X0 Z2) * (i Z0 Y1) = 2 Y0 Y1 Z2 : X Z = -i Y *)
+Example generated_product_runs :
+  match binop_mul_gen gq_env (VT gq_env (mk_PauliTerm gq_env [(0%Z, "X"%string); (2%Z, "Z"%string)] (dy 2 0 0)))
+                             (VT gq_env (mk_PauliTerm gq_env [(0%Z, "Z"%string); (1%Z, "Y"%string)] (dy 0 1 0))) with
+  | Ok (VT _ r) => andb (py_dict_eqb (PauliTerm__ops gq_env r) [(0%Z, "Y"%string); (1%Z, "Y"%string); (2%Z, "Z"%string)])
+                        (gq_eqb (PauliTerm_coefficient gq_env r) (dy 2 0 0))
+  | _ => false
+  end = true.
+Proof. vm_compute. reflexivity. Qed.
+
+(* the generated ** run on (X0 + Z0) ** 2 = 2 I *)
+Example generated_power_runs :
+  match binop_pow_gen gq_env (VS gq_env (mk_PauliSum gq_env [mk_PauliTerm gq_env [(0%Z, "X"%string)] (dy 1 0 0);
+                                                             mk_PauliTerm gq_env [(0%Z, "Z"%string)] (dy 1 0 0)])) 2 with
+  | Ok (VS _ r) => match PauliSum_terms gq_env r with
+                   | [t] => andb (py_dict_eqb (PauliTerm__ops gq_env t) []) (gq_eqb (PauliTerm_coefficient gq_env t) (dy 2 0 0))
+                   | _ => false
+                   end
+  | _ => false
+  end = true.
+Proof. vm_compute. reflexivity. Qed.
